@@ -146,6 +146,7 @@ class LayoutExtractor:
                     self.classes[c.name] = c
         self.layouts: Dict[str, CodecLayout] = {}
         self.assumptions: List[str] = []
+        self.size_problems: Dict[str, List[str]] = {}
 
     def concrete_classes(self) -> List[ClassInfo]:
         """Codec classes that are instantiated (have a type constant or are PDV/Generic)."""
@@ -434,8 +435,8 @@ class LayoutExtractor:
                     order, fields = parse_fmt(fmt)
                     big = order in '>!'
                     if size != sum(w for _, w in fields):
-                        raise AnalysisError('%s: reads %d bytes for struct %r of size %d'
-                                            % (f.loc(st), size, fmt, sum(w for _, w in fields)))
+                        self.size_problems.setdefault(c.name, []).append(
+                            'reads %d bytes for struct %r of size %d' % (size, fmt, sum(w for _, w in fields)))
                     names = self._target_names(t, len(fields), sub0)
                     if names is None:
                         if isinstance(t, ast.Name):
